@@ -35,14 +35,14 @@ Blobs == {B(<<1>>), B(<<1, 2, 3>>), B(<<1, 2, 3, 4>>), B(<<0, 0, 0, 0, 9>>)}
 Consts == {K("T"), K("F"), K("N"), K("E")}
 Marks == {K("["), K("]")}
 Bads == BadInts \cup BadStrs \cup {B(<<>>), K("fbig"), K("x")}
-Addrs == {<<47, 97>>, <<47, 97, 98, 99>>, <<47, 195, 177>>}
+Addrs == {<<47, 97>>, <<47, 97, 98, 99>>, <<47, 195, 177>>, <<47, 195, 177, 117>>, <<47, 195, 177, 195, 177>>}   \* /a /abc /ñ /ñu /ññ
 Times == {K("none"), K("neg"), Lat(<<0, 0, 0, 0, 0, 0, 0, 0>>), Lat(<<0, 0, 0, 0, 128, 0, 0, 0>>),
           Lat(<<0, 0, 0, 1, 64, 0, 0, 0>>)}
 Offs == {<<238, 97, 71, 122, 186, 70, 216, 0>>, <<0, 0, 0, 255, 255, 255, 255, 255>>}
 
 \* nested (completion) messages and bundles, depth 1
 Inner1 == {M(<<47, 98>>, <<>>), M(<<47, 98>>, <<I(0, 7)>>), M(<<47, 98, 99, 100>>, <<S(<<120>>), B(<<5, 6>>)>>),
-           M(<<47, 98>>, <<I(32768, 0)>>)}
+           M(<<47, 98>>, <<I(32768, 0)>>), M(<<47, 195, 177, 117>>, <<I(0, 7)>>)}
 InnerB1 == {Bn(K("none"), <<>>), Bn(Lat(<<0, 0, 0, 0, 128, 0, 0, 0>>), <<M(<<47, 99>>, <<K("T")>>)>>),
             Bn(K("neg"), <<M(<<47, 99>>, <<>>), M(<<47, 100>>, <<F(<<63, 128, 0, 0>>)>>)>>)}
 \* depth 2
@@ -82,5 +82,7 @@ InvRoundTrip == v = Nil \/ RoundTrip(v, off)
 InvAligned == v = Nil \/ Aligned(v, off)
 InvLenAgrees == v = Nil \/ LenAgrees(v, off)
 InvPredNotBelow == v = Nil \/ PredNotBelow(v, off)
+\* non-ASCII text in an address (at any depth) is never sized: the L2 predictor refuses it
+InvRefusesNonAscii == v = Nil \/ AsciiAddrs(v) \/ ~Predictable(v)
 InvEmit == v = Nil \/ ~Emitting \/ PrintT(<<"CASE", ToJson([v |-> v, off |-> off])>>)
 =============================================================================
